@@ -344,6 +344,33 @@ pub fn run(ctx: &Ctx) -> Rep {
     let n6 = r6.distinct;
     rep.merge(r6);
 
+    // ---- single-suit six- and seven-card hands in many slot orders ----------------------------------
+    // (flush / straight-flush shortcuts are where an index computed from rank bits can leave its table; they
+    // are reached only in particular arrangements, which a sorted multiset enumeration never produces)
+    let ss = crate::drive::par_subsets::<6, X, _, _>(ctx, us, mk, |st, c, _| {
+        if drive::max_suit_count(c) == 6 {
+            for k in 0..drive::factorial(6) {
+                let p = drive::nth_permutation(6, k);
+                check6(st, &[c[p[0] as usize], c[p[1] as usize], c[p[2] as usize], c[p[3] as usize], c[p[4] as usize], c[p[5] as usize]]);
+            }
+            st.rep.add("single_suit_six_card_hands_in_every_slot_order", 1);
+        }
+    });
+    let (rs6, xs6) = merge_states(ss);
+    rep.merge(rs6);
+    let ss7 = crate::drive::par_subsets::<7, X, _, _>(ctx, us, mk, |st, c, _| {
+        if drive::max_suit_count(c) >= 6 && drive::selected(c, seed, 0x57, 4) {
+            let mut rng = Rng::new(seed, drive::hand_code(c) ^ 0x5757);
+            for _ in 0..16 {
+                let p = permuted(c, &mut rng);
+                check7(st, &p);
+            }
+            st.rep.add("six_or_seven_suited_seven_card_hands_in_16_orders", 1);
+        }
+    });
+    let (rs7, xs7) = merge_states(ss7);
+    rep.merge(rs7);
+
     // ---- seven-slot multisets -----------------------------------------------------
     let rate7 = ctx.pick(1, 32, 1);
     let s7 = par_multisets::<7, X, _, _>(ctx, 53, us, mk, |st, c, _| {
@@ -418,7 +445,7 @@ pub fn run(ctx: &Ctx) -> Rep {
     let _ = wd.join();
 
     let mut acc = mk();
-    for x in x5.into_iter().chain(xo).chain(x6).chain(x7).chain(xk) {
+    for x in x5.into_iter().chain(xo).chain(x6).chain(xs6).chain(xs7).chain(x7).chain(xk) {
         for k in 0..8 {
             acc.hands[k] += x.hands[k];
             acc.with_blank[k] += x.with_blank[k];
